@@ -452,7 +452,7 @@ class HashFlows:
                 k = n["k"]
                 if k == "For":
                     if hash_container(b.ty(n["iter"])):
-                        yield (b, "for", n["iter"], n["iter"])
+                        yield (b, "iter", n["iter"], n["iter"])
                     continue
                 if k not in ("MCall", "Call"):
                     continue
@@ -465,15 +465,26 @@ class HashFlows:
                     continue
                 if not callee and k == "Call":
                     continue  # call of a local closure: its body is analysed where it is written
-                if callee in prog.bodies or callee in self.eff.impls_of_item:
-                    continue  # the iteration, if any, is visible in the callee
+                if callee in prog.bodies:
+                    # the iteration, if any, is visible in the callee — provided the parameter is declared as a
+                    # hash container (a generic `impl IntoIterator` parameter hides it)
+                    ins = [prog.types[i] for i in prog.bodies[callee].fact.get("inputs", [])]
+                    for r, o in hits:
+                        idx = 0 if r == "recv" else r[1] + (1 if k == "MCall" else 0)
+                        if not (idx < len(ins) and hash_container(ins[idx])):
+                            yield (b, "use", o, o)
+                    continue
+                if callee in self.eff.impls_of_item:
+                    for r, o in hits:
+                        yield (b, "use", o, o)
+                    continue
                 inherent = re.match(r"(std::collections|hashbrown)::(hash_map::|hash_set::)?Hash(Map|Set)::<", callee)
                 if inherent:
                     name = callee.split("::")[-1]
                     if name in NON_ITERATING:
                         continue
                     if k == "MCall" and hits[0][0] == "recv":
-                        yield (b, name, n["recv"], n)
+                        yield (b, "iter" if name == "into_iter" else name, n["recv"], n)
                     for r, o in hits:
                         if r != "recv":
                             yield (b, name + "-arg", o, n)
@@ -483,7 +494,7 @@ class HashFlows:
                         trait_callee.startswith("std::result::Result::"):
                     continue
                 for r, o in hits:
-                    yield (b, "into_iter" if trait_callee.endswith("IntoIterator::into_iter") else "use", o, o)
+                    yield (b, "iter" if trait_callee.endswith("IntoIterator::into_iter") else "use", o, o)
 
     # -- sink classification -----------------------------------------------------------------
     def sink(self, b, start, depth=0):
@@ -640,12 +651,12 @@ STABLE_ORDERED_FLOWS = {
         "stderr diagnostics for invalid regexes only",
     "BindgenOptions.abi_overrides.values_mut->for@BindgenOptions::build":
         "only compiles each RegexSet in place; no value flows between iterations",
-    "local<HashMap<Abi, RegexSet, FxBuildHasher>>.for->for@Builder::command_line_flags":
+    "local<HashMap<Abi, RegexSet, FxBuildHasher>>.iter->for@Builder::command_line_flags":
         "`Builder::command_line_flags` (not the bindings): pushes `--override-abi` flags; keys are `Abi` discriminants, "
         "the order is the same in every process",
-    "local<HashMap<Box<str>, Vec<Box<str>>, FxBuildHasher>>.for->for@Builder::command_line_flags":
+    "local<HashMap<Box<str>, Vec<Box<str>>, FxBuildHasher>>.iter->for@Builder::command_line_flags":
         "`Builder::command_line_flags` (not the bindings): pushes `--module-raw-line` flags; string keys, FxHasher",
-    "local<HashSet<ItemId, FxBuildHasher>>.for->for@UsedTemplateParameters::new":
+    "local<HashSet<ItemId, FxBuildHasher>>.iter->for@UsedTemplateParameters::new":
         "the loop body consists of `extra_assert!`s only (the `trace` callback asserts)",
     "local<HashSet<ItemId, FxBuildHasher>>.iter->flat_map(closure with side effects)@UsedTemplateParameters::new":
         "the closure traces each item into its own Vec (the only side effects of `trace` are idempotent memoisation: "
@@ -828,7 +839,7 @@ def r11_1(rep):
     ctl = _Silent()
     run_r11_1(ctl, _control_program(), {}, "")
     want = {"param<HashMap<Cursor, TypeId, FxBuildHasher>>.values->collect:Vec@leak": False,
-            "param<HashSet<String>>.for->for@leak_for": False,
+            "param<HashSet<String>>.iter->for@leak_for": False,
             "param<HashMap<Cursor, TypeId, FxBuildHasher>>.values->any@quiet": True,
             "param<HashSet<String>>.iter->collect:Vec+sort@sorted": True,
             "param<HashMap<usize, usize, FxBuildHasher>>.keys->collect:Vec@stable": False}
@@ -841,20 +852,18 @@ def r11_1(rep):
 # R11.2 statics
 # ==================================================================================================
 
-# process-wide values that are initialised once and never change afterwards
+# process-wide values that are initialised once and never change afterwards, keyed by the *value type* of the
+# OnceLock/LazyLock (renaming or moving the static does not matter; caching anything else is a new finding)
 LAZY_STATICS = {
-    "ensure_libclang_is_loaded::LIBCLANG":
+    "std::sync::Arc<clang_sys::SharedLibrary>":
         "the shared libclang handle; loaded once, re-installed per thread by `clang_sys::set_library`",
-    "clang::Type::is_associated_type::hacky_parse_associated_type::ASSOC_TYPE_RE": "regex compiled from a literal",
-    "ir::item::Item::type_param::is_template_with_spelling::ANON_TYPE_PARAM_RE": "regex compiled from a literal",
-    "<features::RustTarget as std::default::Default>::default::CURRENT_RUST":
+    "regex::Regex": "a compiled regex (immutable once built; the initialiser is checked to capture nothing)",
+    "std::option::Option<features::RustTarget>":
         "`rustc --version` of the build-script environment (RUSTC, RUSTC_WRAPPER), read once per process",
 }
-# thread_local! values in code that only talks to stderr / cargo
-THREAD_LOCALS = {
-    "diagnostics::Diagnostic::<'a>::display::INVOKED_BY_BUILD_SCRIPT":
-        "whether diagnostics are printed as `cargo:warning=` lines; read from the environment, affects stderr/stdout "
-        "diagnostics only",
+# thread_local! values are tolerated only in modules that talk to stderr / cargo and never to the bindings
+THREAD_LOCAL_MODULES = {
+    "diagnostics::": "diagnostics are printed to stderr / as `cargo:warning=` lines; never part of the bindings",
 }
 LAZY_TYPES = ("std::sync::OnceLock<", "std::sync::LazyLock<", "std::cell::OnceCell<", "std::cell::LazyCell<")
 LAZY_INIT_METHODS = {"get_or_init", "get", "force", "deref", "with"}
@@ -882,13 +891,14 @@ def r11_2(rep):
         if s["mut"]:
             rep.bad("static:" + key, "`static mut %s: %s` is ambient mutable state" % (key, ty), loc)
         elif s["thread_local"]:
-            rep.check(key in THREAD_LOCALS, "static:" + key,
-                      "thread_local `%s`: %s" % (ty, THREAD_LOCALS.get(key, "not in the frozen table of thread-locals that cannot "
-                                                                         "influence the output")), loc)
+            why = [r for m, r in THREAD_LOCAL_MODULES.items() if key.startswith(m)]
+            rep.check(bool(why), "static:" + key,
+                      "thread_local `%s`: %s" % (ty, why[0] if why else "per-thread state outside the modules that only print "
+                                                 "diagnostics: it survives from one generation to the next on the same thread"), loc)
         elif s["freeze"]:
             rep.ok("static:" + key, "immutable and Freeze (%s)" % ty, loc)
-        elif key in LAZY_STATICS and ty.startswith(LAZY_TYPES):
-            rep.ok("static:" + key, "write-once %s — %s" % (ty, LAZY_STATICS[key]), loc)
+        elif ty.startswith(LAZY_TYPES) and split_generic(ty)[1] and split_generic(ty)[1][0] in LAZY_STATICS:
+            rep.ok("static:" + key, "write-once %s — %s" % (ty, LAZY_STATICS[split_generic(ty)[1][0]]), loc)
         else:
             rep.bad("static:" + key, "static of type `%s` has interior mutability and is not one of the frozen write-once "
                     "process-wide values: state survives from one generation to the next" % ty, loc)
@@ -939,7 +949,7 @@ FORBIDDEN = [
 ]
 # where a forbidden callee is allowed: (class, in-crate caller) -> reason
 ALLOWED_SOURCES = {
-    ("wall-clock", "time::Timer::<'a>::new"): "`Timer` measures phases and prints them to stderr only",
+    ("wall-clock", "time::Timer"): "`Timer` measures phases and prints them to stderr only",
 }
 
 
@@ -968,7 +978,7 @@ def r11_3(rep):
         if not hits:
             rep.ok("absent:" + cls, "no such callee in %d reachable bodies" % len(bodies))
         for b, c in hits:
-            reason = ALLOWED_SOURCES.get((cls, b.path))
+            reason = next((r for (c2, pre), r in ALLOWED_SOURCES.items() if c2 == cls and b.path.startswith(pre)), None)
             rep.check(reason is not None, "%s:%s@%s" % (cls, c.split("::")[-1], short_fn(b)),
                       "`%s` called in `%s`%s" % (c, b.path, " — allowed: " + reason if reason else
                                                    ", which is reachable from the generation entry points"), b.loc(b.root))
@@ -1101,13 +1111,35 @@ def r11_4(rep):
     for p in entries:
         ok, why = guarded(p)
         rep.check(ok, "entry:" + p, why, prog.bodies[p].loc(prog.bodies[p].root))
-    # the two functions that do the loading call it unconditionally as their first statement
+    # the two functions that do the loading call it unconditionally, before anything that reaches libclang
     for p in ("Bindings::generate", "clang_version"):
         b = rep.need(prog.fn(p), "fn " + p)
         ok, why = guarded(p)
-        first = b.root["stmts"][0] if b.root.get("stmts") else None
-        is_first = first is not None and first.get("e", {}).get("k") == "Call" and first["e"].get("callee") == ENSURE
-        rep.check(ok and is_first, "first-statement:" + p, "%s; first statement is %sthe call" % (why, "" if is_first else "not "), b.loc(b.root))
+        direct = any(c.get("callee") == ENSURE for c in b.calls())
+        rep.check(ok and direct, "loads-first:" + p, why if direct else "does not call %s itself" % ENSURE, b.loc(b.root))
+    # the loader: the library is loaded once per process (inside the OnceLock initialiser) but installed for
+    # *every* calling thread (clang_sys keeps the active library per thread)
+    e = prog.fn(ENSURE)
+    loads = [c for c in e.calls(lambda n: n.get("callee") == "clang_sys::load")]
+    if not loads:
+        rep.ok("loader:static-linking", "%s has nothing to load in this configuration" % ENSURE, e.loc(e.root))
+        return
+    for c in loads:
+        init = [a for a in e.ancestors(c) if a["k"] == "MCall" and a["name"] == "get_or_init"
+                and strip(a["recv"]).get("k") == "Path" and strip(a["recv"]).get("dk", "").startswith("Static")]
+        rep.check(bool(init), "loader:load-once", "`clang_sys::load` runs inside the initialiser of a process-wide OnceLock", e.loc(c))
+    sets = [c for c in e.calls(lambda n: n.get("callee") == "clang_sys::set_library")]
+    good = []
+    for c in sets:
+        in_closure = any(a["k"] == "Closure" for a in e.ancestors(c))
+        gs = e.guards(c)
+        only_loaded_guard = all(kind == "cond" and not pol and strip(g).get("callee") == "clang_sys::is_loaded" for pol, kind, g in gs)
+        from_static = "LIBCLANG" in e.canon(c["args"][0]) or "get_or_init" in e.canon(c["args"][0])
+        if not in_closure and only_loaded_guard and from_static:
+            good.append(c)
+    rep.check(bool(good), "loader:install-per-thread",
+              "`clang_sys::set_library(<the process-wide handle>)` runs on every call that finds no library installed for "
+              "the current thread (%d set_library call(s), %d qualifying)" % (len(sets), len(good)), e.loc(e.root))
 
 
 # ==================================================================================================
@@ -1121,8 +1153,9 @@ ORDERED_FIELDS = {
     ("ir::context::BindgenContext", "allowlisted"): "std::collections::BTreeSet",
     ("ir::context::BindgenContext", "codegen_items"): "std::collections::BTreeSet",
     ("ir::context::BindgenContext", "items"): "std::vec::Vec",
-    ("ir::comp::CompFields", "*"): None,
 }
+ORDERED_HEADS = {"std::collections::BTreeSet", "std::collections::BTreeMap", "std::vec::Vec", "std::collections::VecDeque",
+                 "indexmap::IndexSet", "indexmap::IndexMap"}
 # functions whose *result* orders the output: the result type must be an ordered collection
 ORDERED_RESULTS = {
     "ir::context::BindgenContext::allowlisted_items": "BTreeSet",
@@ -1160,16 +1193,24 @@ def r11_5(rep):
         while h in ("std::option::Option", "std::cell::RefCell") and args:
             inner = args[0]
             h, args = split_generic(peel(inner))
-        rep.check(h == head, "field:%s.%s" % (adt.split("::")[-1], field), "type is `%s` (must be a %s)" % (t, head.split("::")[-1]))
+        rep.check(h in ORDERED_HEADS, "field:%s.%s" % (adt.split("::")[-1], field),
+                  "type is `%s` (must be an ordered collection: today a %s)" % (t, head.split("::")[-1]))
     for path, want in ORDERED_RESULTS.items():
         b = rep.need(prog.fn(path), "fn " + path)
         out = prog.types[b.fact["output"]]
         h = split_generic(peel(out))[0]
-        rep.check(h.endswith("::" + want), "result:" + short_fn(b), "returns `%s` (must be a %s)" % (out, want), b.loc(b.root))
+        rep.check(h in ORDERED_HEADS, "result:" + short_fn(b), "returns `%s` (must be an ordered collection: today a %s)" % (out, want),
+                  b.loc(b.root))
     # ItemSet = BTreeSet<ItemId>: the analyses' per-item results that are *iterated* by codegen
     t = rep.need(_field_type(prog, "ir::context::BindgenContext", "used_template_parameters"), "BindgenContext.used_template_parameters")
-    rep.check("std::collections::BTreeSet<ir::context::ItemId>" in t, "field:BindgenContext.used_template_parameters",
-              "per-item template parameter sets are ordered (`%s`)" % t)
+    inner = t
+    h, args = split_generic(peel(inner))
+    while h in ("std::option::Option", "std::cell::RefCell") and args:
+        inner = args[0]
+        h, args = split_generic(peel(inner))
+    vh = split_generic(args[1])[0] if len(args) > 1 else "?"
+    rep.check(vh in ORDERED_HEADS, "field:BindgenContext.used_template_parameters",
+              "per-item template parameter sets are an ordered collection (`%s`)" % (args[1] if len(args) > 1 else t))
     # ItemId must order by its numeric value (ids are handed out in parse order)
     idt = rep.need(prog.adts.get("ir::context::ItemId"), "struct ItemId")
     fields = idt["variants"][0]["fields"]
